@@ -72,7 +72,7 @@ CHECKS = {
         technique="Coq theorems (induction over the index walk; verifier model) + differential correspondence with deviating holders"),
     "C09": dict(
         text="Theorems: acceptance of an equality statement implies a non-empty reference list and one scalar v such that every referenced (signature statement, claim) yields response v through the checked extraction path; with special soundness (C17) equal responses under two challenges give equal extracted signed values. "
-             "Correspondence: 2..3 credentials, same/different issuers; unequal values with shared, independent and copied nonces, omitted equality proof, tampered referenced proofs; BBS/PS.",
+             "Correspondence: 2..3 credentials, same/different issuers; unequal values with shared, independent and copied nonces, omitted equality proof, tampered referenced proofs; BBS/PS; plus the completeness half on the implementation: honest Presentation::create -> verify over 3..4 credentials with the equalities written as one statement, a chain of pairwise statements or a star, in any schema order.",
         design="§7 C09",
         note="Extraction against arbitrary efficient provers is the usual ROM step (assumed).",
         technique="Coq theorems about the verifier model's equality check + differential correspondence with deviating holders"),
@@ -125,8 +125,8 @@ CHECKS = {
         note="Hypotheses: non-degeneracy (id+alpha <> 0, batch divisor <> 1, X,Y <> 0, non-zero challenge). The issuer publishes no batch coefficients, so public updates are exercised for single-identifier revocations.",
         technique="Coq theorems (field tactic: completeness / invalid-witness / extractor of the membership proof, composed with the registry and update theorems) + differential correspondence of presentation verdicts over issuer histories"),
     "C10": dict(
-        text="Theorems: acceptance of an encryption statement implies that its hashed Schnorr commitments are computed with the response of the referenced signed claim and, when the statement requests scalar decryption, that the proof carries the decryptable part; completeness of the sub-protocol; group decryption c2 - dk*c1 = gm*m for the ElGamal pair the transcripts open to; view/extraction lemmas in C07/C17. The byte decomposition (per-byte proofs, 8-bit bulletproofs, weighted sum) is not modelled in Coq. "
-             "Correspondence: external prover (honest, substitute plaintext with shared / independent nonce, omitted proof, altered response, omitted decryptable part) against model and implementation; decrypt / decrypt_scalar / decrypt_and_verify of Presentation::create output for every claim type and value class with standard and hashed generators.",
+        text="Theorems: acceptance of an encryption statement implies that its hashed Schnorr commitments are computed with the response of the referenced signed claim and, when the statement requests scalar decryption, that the proof carries the decryptable part; completeness of the sub-protocol; group decryption c2 - dk*c1 = gm*m for the ElGamal pair the transcripts open to; view/extraction lemmas in C07/C17. The reassembly of the scalar from the byte decomposition is modelled and proved: every byte string that passes the verifier's field sum check reassembles to the signed claim (and, refuted for the pinned tree, the decomposition of m + r passed the check and decrypted to nothing for every claim below 2^256 - r; repaired); the per-byte Schnorr proofs and the 8-bit bulletproofs are not modelled in Coq. "
+             "Correspondence: external prover (honest, substitute plaintext with shared / independent nonce, omitted proof, altered response, omitted decryptable part) against model and implementation; decrypt / decrypt_scalar / decrypt_and_verify of Presentation::create output for every claim type and value class with standard and hashed generators; a hand-written holder for the byte decomposition (honest calibration; bytes of another value with related and with unrelated byte randomness; the integer m + r): whatever is accepted must decrypt to the signed scalar.",
         design="§7 C10",
         note="bulletproofs soundness, AES-GCM idealised. Known finding: decrypt_scalar works only for the standard generator. Deviations inside the byte decomposition (non-canonical m+r decomposition) need a bulletproof prover in the harness and are not exercised.",
         technique="Coq theorems about the verifier model (linkage, required decryptable part, group decryption) + differential correspondence + decryption checks on honest presentations"),
